@@ -126,7 +126,11 @@ Definition scale_elem (f : fmt) (raw machine : bool) (x : num) : outcome num :=
     end
   else match x with
        | NR _ => Unmodelled
-       | _ => Ok (NF (f64_mul_pow2 (num_to_f64 x) (nf f))) end.   (* float factor 1/(1 << -n_frac) *)
+       | _ => (* float factor 1/(1 << -n_frac); in a float64 array a non-zero value whose product underflows to zero is
+                 replaced by the smallest double of its sign (Fxp._scale: ceil and floor need the sign) *)
+              let v := num_to_f64 x in let y := f64_mul_pow2 v (nf f) in
+              Ok (NF (if machine && f64_is_zero y && negb (f64_is_zero v)
+                      then Fin (if f64_sign_neg v then -1 else 1) (-1074) else y)) end.
 
 (* _round: identity on integers (machine or Python), NumPy rounding on floats — float64
    arrays as a whole, float elements of object arrays one by one (objects.py _round) *)
